@@ -124,9 +124,14 @@ def _chunk_worker(args):
                 unlisted += 1
                 hang = hang or res["violation"]["kind"] == "hang"
                 out["violations"].append((index, res["violation"], res.get("case") or case))
-        if want_samples and res["nt"] is not None and len(out["samples"]) < want_samples:
+        # samples for the evidence: non-trivial cases (a couple from the first chunks, one from every later chunk -
+        # the first chunks of an enumerating check may hold nothing but trivial cases), else the first case at all
+        if res["nt"] is not None and len(out["samples"]) < max(want_samples, 1):
             out["samples"].append({"run": index, "seed": seed, "case": case, "trace": res.get("trace"),
-                                   "digest": res["digest"]})
+                                   "digest": res["digest"], "nontrivial": True})
+        elif index == 0:
+            out["samples"].append({"run": index, "seed": seed, "case": case, "trace": res.get("trace"),
+                                   "digest": res["digest"], "nontrivial": False})
     out["chunk_digest"] = m.hexdigest()[:24]
     out["distinct_digests"] = len(seen_digests)
     return out
@@ -324,7 +329,8 @@ def run_check(pid: str, tier: str, root_seed: int, workers=None, budget_override
                     agg["aborted_other"] += out["aborted_other"]
                     agg["violations"].extend(out["violations"])
                     agg["harness"].extend(out["harness"])
-                    agg["samples"].extend(out["samples"])
+                    if len(agg["samples"]) < 40:
+                        agg["samples"].extend(out["samples"])
                     agg["chunk_digests"][out["first"]] = out["chunk_digest"]
                     agg["distinct_digests"] = agg.get("distinct_digests", 0) + out.get("distinct_digests", 0)
                     agg["digests"][out["first"]] = out["digests"]
@@ -350,7 +356,7 @@ def run_check(pid: str, tier: str, root_seed: int, workers=None, budget_override
 
     wall_runs = time.time() - t0
     agg["violations"].sort(key=lambda t: t[0])
-    agg["samples"].sort(key=lambda s: s["run"])
+    agg["samples"].sort(key=lambda s: (not s.get("nontrivial", True), s["run"]))
 
     # ------------------------------------------------------------------ violations
     by_sig = {}
@@ -482,8 +488,8 @@ def run_check(pid: str, tier: str, root_seed: int, workers=None, budget_override
             "evaluations": counters.get(getattr(check, "EVAL_COUNTER", ""), agg["n"]),
             "distinct_nontrivial": len(agg["nt"]),
             "rule": check.RULE,
-            "samples": [{"run": s["run"], "case": s["case"], "trace": (s["trace"] or [])[:60]}
-                        for s in agg["samples"][:3]],
+            "samples": [{"run": s["run"], "nontrivial": s.get("nontrivial", True), "case": s["case"],
+                         "trace": (s["trace"] or [])[:60]} for s in agg["samples"][:3]],
             "exhaustive": bool(getattr(check, "EXHAUSTIVE", False)),
             "runs_planned": runs, "runs_completed": agg["n"], "budget_exhausted": budget_exhausted,
             "stopped_early_on_violation": stopped_early,
